@@ -14,7 +14,8 @@ same lifecycle automaton (safety only, no timing verdicts).
 
 Offline checker over the handler's event log: per client object the events match
 connect . message* . disconnect, each of connect/disconnect exactly once; connect only
-with proof of key (as C02c); every message was minted by that very client; nothing
+with proof of key and of the token issued to that connection (as C02c: rogue peers that
+hold a session key never answer the challenge, or answer it with wrong tokens); every message was minted by that very client; nothing
 for objects that never connected; tokens of simultaneously connected objects are
 pairwise distinct; one thread id for all events; after shutdown every connected
 object has had its disconnect; events keep flowing after a handler exception.
@@ -346,6 +347,22 @@ class Scenario(object):
             self.flow_check.append((len(self.w.handler.log), self.w.server_iterations, event))
             raise RuntimeError("seeded handler failure in %s" % event)
 
+    # ---- the challenge response message (the library's own serialization layer, as C02c)
+    def challenge_token(self, payload):
+        """the token a CHALLENGE_RESP payload carries; None when it is not a challenge response message"""
+        try:
+            msg = self.CN.Serializable.loadb(payload)
+            if type(msg).__name__ == "HandshakeClientChallengeResponseMessage" and isinstance(msg.token, int):
+                return msg.token
+        except Exception:
+            pass
+        return None
+
+    def challenge_payload(self, token):
+        m = self.CN.HandshakeClientChallengeResponseMessage()
+        m.token = token
+        return m.dumpb()
+
     # ---- handler side behaviour
     def on_connect(self, client):
         w = self.w
@@ -354,14 +371,26 @@ class Scenario(object):
             if other is not client and other.token == client.token:
                 self.viol("duplicate-token", "two simultaneously connected clients carry token %r (%s and %s)" % (client.token, other.addr, client.addr))
         self.connected[id(client)] = client
-        # proof of key (as C02c)
+        # the handshake is complete once the peer has answered the challenge: proof of key AND of the token the server issued to
+        # this very connection (as C02c) - among the datagrams offered from this address so far
         ok = False
+        answered_with = []
         for d in self.offered.get(client.addr, []):
             dec = L.decode_datagram(d, client.session_key_bytes)
             if dec.ok and dec.form == "gcm" and dec.ptype == 3 and dec.count == 1:
-                ok = True
-                break
-        if not ok:
+                tok = self.challenge_token(dec.msgs[0][2])
+                if tok is not None and tok == client.token:
+                    ok = True
+                    break
+                answered_with.append(tok)
+        if ok:
+            self.c.inc("connects_with_proof_of_key_and_token")
+            if answered_with:
+                self.c.inc("connects_after_wrong_tokens_then_the_right_one")
+        elif answered_with:
+            self.viol("connect-with-wrong-challenge-token", "connect event for %s (token %r) although every challenge response that opens under its key "
+                      "carries another token: %r" % (client.addr, client.token, answered_with[:4]))
+        else:
             self.viol("connect-without-handshake", "connect event for %s without a challenge response that opens under its key" % (client.addr,))
         if self.r.random() < 0.1:
             client.disconnect()          # server-initiated disconnect from inside connect
@@ -431,6 +460,24 @@ class Scenario(object):
         rogues = []
         blocked_live = []
         ra_in_temp = lambda a: a in w.ctxt.temp_connections
+        # peers that complete the hello exchange and DO answer the challenge - with a token the server did not issue to them (a
+        # stream of its own decides about them)
+        r2 = rng("C10", *(list(self.key) + ["wrong-token-peers"]))
+        answerers = []               # [client end, tick of its hello, datagrams sent so far, style, own msgseq base]
+
+        def wrong_token(tok):
+            """one member of the family of tokens that are not `tok`"""
+            others = [c.udp.conn.token for c in list(live.values()) + [x[0] for x in answerers] + [x[0] for x in rogues]
+                      if c.udp.conn is not None and c.udp.conn.token and c.udp.conn.token != tok]
+            kind = r2.choice(["plus1", "minus1", "zero", "random32", "random-in-range", "bitflip", "other-live", "wider", "negative", "low-bits"])
+            if kind == "other-live" and not others:
+                kind = "random-in-range"
+            v = {"plus1": tok + 1, "minus1": tok - 1, "zero": 0, "random32": r2.getrandbits(32),
+                 "random-in-range": r2.getrandbits(30) | 0x40000000, "bitflip": tok ^ (1 << r2.randrange(32)),
+                 "other-live": r2.choice(others) if others else 0, "wider": tok + (1 << 32), "negative": -tok, "low-bits": tok & 0xFFFF}[kind]
+            if v == tok:
+                v, kind = tok + 1, "plus1"
+            return v, kind
 
         def new_client(addr):
             c = L.ClientEnd(w, addr, next_sender[0] % 250 + 1, pinned=r.random() < 0.8)
@@ -526,6 +573,47 @@ class Scenario(object):
                 else:
                     w.net.inject("c2s", addr, A.forge_crc("c2s", r.randint(0, 7), r.randint(1, 65535), 1, 0, [(1, 6, b"x" * 12)], int(w.clock.now)), "forged")
                 self.c.inc("act_hostile_datagram")
+            if len(answerers) < 6 and r2.random() < 0.02:
+                # a peer whose own (correct) challenge response never arrives; what it sends instead is decided below
+                ra = ("10.3.8.%d" % (len(answerers) + 2), 32000 + len(answerers))
+                rc = L.ClientEnd(w, ra, 252, pinned=True)
+                rc.sender_id = 252
+                sender_of.setdefault(252, set()).add(ra)
+                w.clients.append(rc)
+                w.clients_by_addr[ra] = rc
+                w.net.filters.append(lambda direction, a, d, info, ra=ra: "drop" if (direction == "c2s" and a == ra and len(d) >= 20 and d[12] == 3) else None)
+                rc.connect()
+                answerers.append([rc, t, 0, r2.choice(["wrong", "wrong", "wrong-then-right"]), r2.randrange(10, 20000)])
+                self.c.inc("act_wrong_token_peer")
+            # they hold the session key and the token of the server hello; as soon as they have both they answer the challenge with a
+            # well-formed, correctly sealed single CHALLENGE_RESP that carries ANOTHER token (several times, different wrong tokens),
+            # send application data and a disconnect as if they had been admitted - and, one style, finally the right token
+            for ag in answerers:
+                rc, t0, n_sent, style, ms0 = ag
+                conn_ = rc.udp.conn
+                key_ = conn_.session_key_bytes if conn_ is not None else None
+                tok_ = conn_.token if conn_ is not None else None
+                if key_ and tok_ and t >= t0 + 2 and n_sent < 8:
+                    rc.active = False
+                    k = n_sent
+                    pl = L.make_payload(252, 1000 * (answerers.index(ag) + 1) + k, r2.choice([11, 30, 200]))
+                    in_temp = ra_in_temp(rc.addr)
+                    if k in (0, 2, 4):
+                        wt, kind = wrong_token(tok_)
+                        ptype, msgs = 3, [(ms0 + k, 3, self.challenge_payload(wt))]
+                        if in_temp:
+                            self.c.inc("wrong_token_challenge_responses")
+                            self.c.inc("wrong_token_kind_" + kind)
+                    elif k == 5 and style == "wrong-then-right":
+                        ptype, msgs = 3, [(ms0 + k, 3, self.challenge_payload(tok_))]
+                        if in_temp:
+                            self.c.inc("right_token_after_wrong_ones")
+                    elif k == 7 and style == "wrong":
+                        ptype, msgs = 5, [(ms0 + k, 5, b"")]
+                    else:
+                        ptype, msgs = 6, [(ms0 + k, 6, pl)]
+                    w.net.inject("c2s", rc.addr, A.seal(key_, "c2s", ptype, 3 + k, 1, 0, msgs, int(w.clock.now), count=1), "forged:wrong-token-peer")
+                    ag[2] += 1
             # rogue peers seal whatever they like under the key they hold - without ever having answered the challenge
             for rg in rogues:
                 rc, t0, n_sent = rg
@@ -694,7 +782,8 @@ def finish(tier, seed, results):
                          "handler_raised_in_message", "handler_raised_in_update", "handler_raised_in_disconnect", "connected_at_shutdown",
                          "flow_after_exception_checked", "messages_attributed_to_their_client", "act_hostile_datagram", "realnet_runs",
                          "realnet_sends", "realnet_stop_during_blocked_handler", "silence_timeouts_checked", "junk_from_silent_addresses", "rogue_sealed_datagrams", "junk_offered_inside_the_tick", "server_guaranteed_sends", "act_blocklist_connected_client", "last_tick_kick_chains",
-                         "server_disconnect_in_disconnect", "shutdown_called_from_handler"], inconclusive)
+                         "server_disconnect_in_disconnect", "shutdown_called_from_handler", "wrong_token_challenge_responses",
+                         "connects_with_proof_of_key_and_token"], inconclusive)
     cov = {
         "evaluations": m["evaluations"],
         "distinct_nontrivial": m["distinct_nontrivial"],
@@ -702,7 +791,10 @@ def finish(tier, seed, results):
                 "to 4/12/40 client addresses with seeded actions per tick (connect, send, client disconnect, go silent, reconnect from the "
                 "same address while connected, server-side disconnect inside connect/message/update, hostile datagrams), seeded handler "
                 "exceptions in every event type, token draws that repeat live tokens, shutdown at a seeded tick; rogue peers that hold a session "
-                "key but never answered the challenge and seal APP / CHALLENGE_RESP-typed multi-message datagrams; on the last tick the handler "
+                "key but never answered the challenge and seal APP / CHALLENGE_RESP-typed multi-message datagrams; peers that hold a session key and answer the challenge with a "
+                "well-formed, sealed single CHALLENGE_RESP carrying a token the server did not issue to them (token+-1, 0, random, bit flip, "
+                "another live peer's token, wider / negative / truncated values), then APP and DISCONNECT datagrams, one style finally the right "
+                "token - a connect needs a challenge response under the connection's key WITH its token; on the last tick the handler "
                 "closes clients from inside update() and from inside the following disconnect event while the server is shut down by its owner "
                 "or by the handler itself. distinct = distinct worlds",
         "samples": m["samples"],
